@@ -164,9 +164,253 @@ theorem matchInner_ranges {lo hi r0 : Nat} {fns : Nat → Option Wrap} {mk : Cha
                       refine ⟨by simp only; omega, Node.mk otok.val (some (oS, oE - ml)) otok.children,
                         rfl, hoc, ?_⟩
                       simp only [hz, if_false]
-                      simp
         · omega
     · simp only [Except.ok.injEq, Prod.mk.injEq] at h
       obtain ⟨rfl, rfl⟩ := h; exact hs
+
+/-! ## the outer loop -/
+
+/-- the invariant of the outer loop -/
+def MInv (lo hi r0 : Nat) (ms : MatchSt) : Prop :=
+  ∃ mid, ListOK lo mid ms.children ∧ CloserOK hi mid ms ∧ LastFlag r0 ms
+
+theorem getElem?_mid {α : Type} (pre : List α) (x : α) (t : List α) :
+    (pre ++ [x] ++ t)[pre.length]? = some x := by
+  simp
+
+theorem set_mid {α : Type} (pre : List α) (x y : α) (t : List α) :
+    (pre ++ [x] ++ t).set pre.length y = pre ++ [y] ++ t := by
+  simp
+
+theorem marker_toVal_asMarker (m : Marker) (r : Option (Nat × Nat)) (cs : List Node) :
+    (Node.mk m.toVal r cs).asMarker = some m := by
+  cases m; rfl
+
+theorem marker_toVal_isText (m : Marker) (r : Option (Nat × Nat)) (cs : List Node) :
+    (Node.mk m.toVal r cs).isText = false := by
+  cases m; rfl
+
+/-- replacing a middle element by a non-text keeps "the list does not end in a text" -/
+theorem last_not_text_set {pre t : List Node} {x y : Node} (hy : y.isText = false)
+    (h : ∀ init last, pre ++ [x] ++ t = init ++ [last] → last.isText = false) :
+    ∀ init last, pre ++ [y] ++ t = init ++ [last] → last.isText = false := by
+  intro init last hl
+  rcases List.eq_nil_or_concat t with rfl | ⟨t', z, ht⟩
+  · simp only [List.append_nil] at hl
+    obtain ⟨_, rfl⟩ := snoc_inj hl; exact hy
+  · rw [List.concat_eq_append] at ht; subst ht
+    have e1 : pre ++ [y] ++ (t' ++ [z]) = (pre ++ [y] ++ t') ++ [z] := by simp
+    rw [e1] at hl
+    obtain ⟨_, rfl⟩ := snoc_inj hl
+    exact h (pre ++ [x] ++ t') z (by simp)
+
+theorem matchOuter_ranges {lo hi r0 : Nat} {fns : Nat → Option Wrap} {mk : Char} (minIdx : Nat) :
+    ∀ (k : Nat) (ms ms' : MatchSt), matchOuter fns mk minIdx k ms = .ok ms' →
+      MInv lo hi r0 ms → MInv lo hi r0 ms' := by
+  intro k
+  induction k with
+  | zero =>
+    intro ms ms' h hm
+    simp only [matchOuter, Except.ok.injEq] at h; subst h; exact hm
+  | succ k ih =>
+    intro ms ms' h hm
+    unfold matchOuter at h
+    simp only at h
+    split at h
+    · simp at h
+    · next tok htok =>
+      split at h
+      · exact ih _ _ h hm
+      · next opener hop =>
+        obtain ⟨mid, hlist, hcl, hflag⟩ := hm
+        obtain ⟨hsplit, hlen⟩ := split_at_getElem? htok
+        obtain ⟨pre, hpredef⟩ : ∃ pre, pre = ms.children.take (minIdx + k) := ⟨_, rfl⟩
+        obtain ⟨tl, htldef⟩ : ∃ tl, tl = ms.children.drop (minIdx + k + 1) := ⟨_, rfl⟩
+        rw [← hpredef] at hlen
+        rw [← hpredef, ← htldef] at hsplit
+        -- the three parts of the list
+        have hl3 := hlist
+        rw [hsplit] at hl3
+        obtain ⟨y, hl12, hltail⟩ := hl3.split
+        obtain ⟨x, hlpre, hltok⟩ := hl12.split
+        obtain ⟨hch, hrem, oS, oE, hor, hfit⟩ :=
+          hlist.markers tok (List.mem_of_getElem? htok) opener hop
+        obtain ⟨a, b, hab, hxa, _, hby⟩ := hltok.ord
+        rw [hor] at hab; simp only [Option.some.injEq, Prod.mk.injEq] at hab
+        obtain ⟨rfl, rfl⟩ := hab
+        simp only [OrderedN] at hby
+        have hpre : ListOK lo oS pre := hlpre.widen (Nat.le_refl _) hxa
+        have htail : ListOK oE mid tl := hltail.widen hby (Nat.le_refl _)
+        -- the shape before the inner loop
+        have hshape0 : IShape lo hi r0 pre oS opener ms :=
+          ⟨oE, mid, _, htail, hcl, hfit, hflag, Or.inl ⟨hrem, tok, hor, hch, hsplit⟩⟩
+        split at h
+        · simp at h
+        · next opener' ms1 hgo =>
+          have hshape : IShape lo hi r0 pre oS opener' ms1 := by
+            split at hgo
+            · rw [← hlen] at hgo
+              exact matchInner_ranges hpre _ _ _ _ _ hgo hshape0
+            · simp only [Except.ok.injEq, Prod.mk.injEq] at hgo
+              obtain ⟨rfl, rfl⟩ := hgo; exact hshape0
+          obtain ⟨oE', mid', tail', htail', hcl', hfit', hflag', hsh⟩ := hshape
+          split at h
+          · next hpos =>
+            split at h
+            · simp at h
+            · next cs hrep =>
+              apply ih _ _ h
+              rcases hsh with ⟨_, otok', hor', hoc', hch'⟩ | ⟨h0, _⟩
+              · -- the opener token gets its new value
+                unfold replaceAt at hrep
+                rw [hch', ← hlen, getElem?_mid] at hrep
+                simp only [Except.ok.injEq] at hrep
+                rw [set_mid] at hrep
+                subst hrep
+                have hnew : ListOK oS oE' [Node.mk opener'.toVal otok'.range otok'.children] := by
+                  refine ⟨orderedN_single hor' (Nat.le_refl _) (by omega) (Nat.le_refl _),
+                    WellRangedList.single ?_, ?_⟩
+                  · rw [WellRanged_eq]; simp only [hoc']
+                    exact ⟨⟨oS, oE', hor', by omega, by simp only [OrderedN]; omega⟩, trivial⟩
+                  · intro n hn mk' hmk'
+                    simp only [List.mem_singleton] at hn; subst hn
+                    rw [marker_toVal_asMarker] at hmk'
+                    simp only [Option.some.injEq] at hmk'; subst hmk'
+                    exact ⟨hoc', hpos, oS, oE', hor', hfit'⟩
+                refine ⟨mid', (hpre.append hnew).append htail', hcl', ?_⟩
+                rcases hflag' with hf | hf
+                · left; exact hf
+                · right
+                  rw [hch'] at hf
+                  exact last_not_text_set (marker_toVal_isText _ _ _) hf
+              · omega
+          · next hpos =>
+            apply ih _ _ h
+            rcases hsh with ⟨hp, _⟩ | ⟨h0, hch'⟩
+            · omega
+            · refine ⟨mid', ?_, hcl', hflag'⟩
+              rw [hch']
+              exact hpre.append (htail'.widen (by omega) (Nat.le_refl _))
+
+/-! ## `scan_and_match_delimiters`, the rule -/
+
+theorem scanAndMatch_ranges {src : List Char} {m : Srcmap} {lo pos : Nat} {fns : Nat → Option Wrap}
+    {mk : Char} {cs out : List Node} {b b' : List (Char × List Nat)}
+    (hi : RI src m lo pos cs) (h : scanAndMatch fns mk cs b = .ok (out, b'))
+    (hlast : ∀ init last, cs = init ++ [last] → last.asMarker ≠ none) : RI src m lo pos out := by
+  unfold scanAndMatch at h
+  split at h
+  · simp only [Except.ok.injEq, Prod.mk.injEq] at h; rw [← h.1]; exact hi
+  · split at h
+    · simp at h
+    · next init closerTok hpop =>
+      have hcs : cs = init ++ [closerTok] := by
+        rcases popLast_spec cs with ⟨hp, _⟩ | ⟨i, l, hp, hl⟩
+        · rw [hp] at hpop; simp at hpop
+        · rw [hp] at hpop; simp only [Option.some.injEq, Prod.mk.injEq] at hpop
+          rw [hl, hpop.1, hpop.2]
+      subst hcs
+      split at h
+      · simp at h
+      · next closer hcl =>
+        obtain ⟨hT, hhT, hord⟩ := hi.ord
+        obtain ⟨hcc, hrem, cS, cE, hcr, hfit⟩ := hi.markers closerTok (by simp) closer hcl
+        obtain ⟨a, b0, hab, hinit, _, hbT⟩ := hord.last
+        rw [hcr] at hab; simp only [Option.some.injEq, Prod.mk.injEq] at hab
+        obtain ⟨rfl, rfl⟩ := hab
+        simp only at h
+        split at h
+        · simp at h
+        · split at h
+          · simp at h
+          · split at h
+            · simp at h
+            · next ms hms =>
+              have hm0 : MInv lo hT closer.remaining
+                  { closer := closer, closerRange := closerTok.range, children := init,
+                    newMin := init.length - 1 } :=
+                ⟨cS, ⟨hinit, hi.deep.left, hi.markers.left⟩, ⟨cS, cE, hcr, Nat.le_refl _, hfit, hbT⟩,
+                  Or.inl rfl⟩
+              obtain ⟨mid, hlist, ⟨s, e, hcr', hms', hfit', heT⟩, hflag⟩ :=
+                matchOuter_ranges _ _ _ _ hms hm0
+              split at h
+              · next hpos =>
+                simp only [Except.ok.injEq, Prod.mk.injEq] at h; rw [← h.1]
+                have hse : s ≤ e := by omega
+                refine ⟨⟨hT, hhT, hlist.ord.snoc (n := Node.mk ms.closer.toVal ms.closerRange
+                    closerTok.children) hcr' hms' hse heT⟩,
+                  hlist.deep.append (WellRangedList.single ?_), hlist.markers.append ?_, ?_⟩
+                · rw [WellRanged_eq]; simp only [hcc]
+                  exact ⟨⟨s, e, hcr', hse, by simp only [OrderedN]; exact hse⟩, trivial⟩
+                · intro n hn mk' hmk'
+                  simp only [List.mem_singleton] at hn; subst hn
+                  rw [marker_toVal_asMarker] at hmk'
+                  simp only [Option.some.injEq] at hmk'; subst hmk'
+                  exact ⟨hcc, hpos, s, e, hcr', hfit'⟩
+                · intro init' last' hcs' hlt'
+                  obtain ⟨_, rfl⟩ := snoc_inj hcs'
+                  rw [marker_toVal_isText] at hlt'; cases hlt'
+              · next hpos =>
+                simp only [Except.ok.injEq, Prod.mk.injEq] at h; rw [← h.1]
+                refine ⟨⟨hT, hhT, hlist.ord.widen (Nat.le_refl _) (by omega)⟩, hlist.deep, hlist.markers, ?_⟩
+                intro init' last' hcs' hlt'
+                rcases hflag with hf | hf
+                · omega
+                · rw [hf init' last' hcs'] at hlt'; cases hlt'
+
+theorem ruleEmph_ranges {cfg : Cfg} {mk : Char} {csw : Bool} {lo : Nat} {st st' : IState}
+    {o : Option Nat} (hm : MapOK st.src st.srcmap) (hi : RInv lo st)
+    (h : ruleEmph cfg mk csw st false = .ok (o, st')) : StepRI lo st o st' := by
+  unfold ruleEmph at h
+  simp only [Bool.false_eq_true, if_false] at h
+  split at h
+  · simp at h
+  · simp at h
+  · split at h
+    · simp only [Except.ok.injEq, Prod.mk.injEq] at h; obtain ⟨rfl, rfl⟩ := h; exact stepRI_same hi
+    · split at h
+      · simp at h
+      · next scanned hsc =>
+        obtain ⟨_, _, _, _, hlen⟩ := scanDelims_length hsc
+        split at h
+        · simp at h
+        · next r hr =>
+          obtain ⟨rx, ry⟩ := r
+          obtain ⟨e1, e2, _⟩ := getMap_eq hr
+          -- the state with the marker pushed, at the position behind the run
+          have hexp := translate_expand st.srcmap hm.wf hm.mono st.pos (st.pos + scanned.length)
+            (by omega) rx ry e1 e2
+          obtain ⟨hT, hhT, hord⟩ := hi.ord
+          rw [e1] at hhT; simp only [Except.ok.injEq] at hhT; subst hhT
+          have hpushed : RI st.src st.srcmap lo (st.pos + scanned.length)
+              (st.children ++ [Node.leaf (.emphMarker mk scanned.length scanned.length scanned.canOpen
+                scanned.canClose) (some (rx, ry))]) := by
+            refine ⟨⟨ry, e2, hord.snoc (n := Node.leaf _ (some (rx, ry))) rfl (Nat.le_refl _) (by omega)
+                (Nat.le_refl _)⟩,
+              hi.deep.append (WellRangedList.single (wellRanged_leaf (by omega))),
+              hi.markers.append ?_, ?_⟩
+            · intro n hn mk' hmk'
+              simp only [List.mem_singleton] at hn; subst hn
+              simp only [Node.leaf, Node.asMarker, Option.some.injEq] at hmk'
+              subst hmk'
+              exact ⟨rfl, by simp only; omega, rx, ry, rfl, by simp only; omega⟩
+            · intro init' last' hcs' hlt'
+              obtain ⟨_, rfl⟩ := snoc_inj hcs'
+              cases hlt'
+          split at h
+          · split at h
+            · simp at h
+            · next cs b hsm =>
+              simp only [Except.ok.injEq, Prod.mk.injEq] at h; obtain ⟨rfl, rfl⟩ := h
+              unfold StepRI
+              simp only [Option.getD_some, IState.push]
+              apply scanAndMatch_ranges hpushed hsm
+              intro init last hl
+              obtain ⟨_, rfl⟩ := snoc_inj hl
+              simp [Node.leaf, Node.asMarker]
+          · simp only [Except.ok.injEq, Prod.mk.injEq] at h; obtain ⟨rfl, rfl⟩ := h
+            unfold StepRI
+            simp only [Option.getD_some, IState.push]
+            exact hpushed
 
 end MdIt.Inline
